@@ -23,6 +23,8 @@ import (
 
 	"github.com/kubeshark/base/pkg/api"
 	"github.com/kubeshark/base/pkg/extensions/amqp"
+	"github.com/kubeshark/base/pkg/extensions/dns"
+	httpext "github.com/kubeshark/base/pkg/extensions/http"
 	"github.com/kubeshark/base/pkg/extensions/kafka"
 	"github.com/kubeshark/base/pkg/extensions/redis"
 	"github.com/rs/zerolog"
@@ -37,7 +39,7 @@ type caseIn struct {
 
 type outcome struct {
 	Panic bool   `json:"panic"`
-	Kind  string `json:"kind,omitempty"` // assert | other
+	Kind  string `json:"kind,omitempty"` // assert | index | other
 	File  string `json:"file,omitempty"` // <ext>/<file>.go of the innermost frame inside the extension
 	Line  int    `json:"line,omitempty"`
 	Msg   string `json:"msg,omitempty"`
@@ -57,7 +59,8 @@ type caseOut struct {
 
 var strMax = 1024
 
-var dissectors = map[string]api.Dissector{"redis": redis.NewDissector(), "amqp": amqp.NewDissector(), "kafka": kafka.NewDissector()}
+var dissectors = map[string]api.Dissector{"redis": redis.NewDissector(), "amqp": amqp.NewDissector(), "kafka": kafka.NewDissector(),
+	"http": httpext.NewDissector(), "dns": dns.NewDissector()}
 
 func guarded(ext string, f func()) (o outcome) {
 	defer func() {
@@ -69,6 +72,8 @@ func guarded(ext string, f func()) (o outcome) {
 		o.Kind = "other"
 		if _, ok := r.(*runtime.TypeAssertionError); ok {
 			o.Kind = "assert"
+		} else if re, ok := r.(runtime.Error); ok && strings.HasPrefix(re.Error(), "runtime error: index out of range") {
+			o.Kind = "index"
 		}
 		o.Msg = fmt.Sprint(r)
 		if len(o.Msg) > 200 {
